@@ -19,10 +19,28 @@ pub fn encode_ascii_model<'a>(
 
 /// 7-bit model of `Encoding::decode`: ASCII passes through unchanged; any other input decodes to
 /// a fixed replacement string with the error flag set (the real decoders are total as well).
+/// For UTF-16LE the units must be ASCII code points (high byte 0); each unit becomes one char.
 pub fn decode_ascii_model<'a>(
     this: &'static Encoding,
     bytes: &'a [u8],
 ) -> (Cow<'a, str>, &'static Encoding, bool) {
+    if std::ptr::eq(this, encoding_rs::UTF_16LE) {
+        let mut out = String::new();
+        let mut bad = bytes.len() % 2 != 0;
+        let mut i = 0;
+        while i + 1 < bytes.len() {
+            if bytes[i + 1] != 0 || bytes[i] >= 0x80 {
+                bad = true;
+            } else {
+                out.push(bytes[i] as char);
+            }
+            i += 2;
+        }
+        if bad {
+            return (Cow::Borrowed("?"), this, true);
+        }
+        return (Cow::Owned(out), this, false);
+    }
     let mut bad = false;
     for i in 0..bytes.len() {
         if bytes[i] >= 0x80 {
@@ -40,3 +58,41 @@ pub fn decode_ascii_model<'a>(
 pub fn format_model(_args: std::fmt::Arguments<'_>) -> String {
     String::new()
 }
+
+// ---------------------------------------------------------------------------------------------
+// nintendo_lz::decompress_arr recorder (wrapper harnesses of C11 only)
+// ---------------------------------------------------------------------------------------------
+
+pub static mut LZ_CALLS: usize = 0;
+pub static mut LZ_ARG_LEN: usize = 0;
+pub static mut LZ_ARG_FIRST: [u8; 8] = [0; 8];
+pub static mut LZ_RETURNS_OK: bool = false;
+
+/// Records the slice handed to the dependency and returns Ok(vec![0xAB]) or Err as preset.
+pub fn decompress_arr_recorder(input: &[u8]) -> Result<Vec<u8>, Box<dyn std::error::Error>> {
+    unsafe {
+        LZ_CALLS += 1;
+        LZ_ARG_LEN = input.len();
+        for i in 0..8 {
+            if i < input.len() {
+                LZ_ARG_FIRST[i] = input[i];
+            }
+        }
+        if LZ_RETURNS_OK {
+            Ok(vec![0xAB])
+        } else {
+            Err(Box::new(RecorderError))
+        }
+    }
+}
+
+#[derive(Debug)]
+pub struct RecorderError;
+
+impl std::fmt::Display for RecorderError {
+    fn fmt(&self, _f: &mut std::fmt::Formatter<'_>) -> std::fmt::Result {
+        Ok(())
+    }
+}
+
+impl std::error::Error for RecorderError {}
